@@ -25,3 +25,21 @@ Definition spec_name_lits : list str :=
      :: "%" :: "max" :: "min" :: "merge" :: "in" :: "cat" :: "substr" :: "log" :: "var" :: "missing"
      :: "missing_some" :: "if" :: "?:" :: "or" :: "and" :: "map" :: "filter" :: "reduce" :: "all" :: "some"
      :: "none" :: nil).
+
+(** The operators by name. *)
+Inductive opname :=
+| OEq | ONe | OSeq | OSne | ONot | ONotNot | OLt | OLe | OGt | OGe
+| OAdd | OSub | OMul | ODiv | OMod | OMax | OMin | OMerge | OIn | OCat | OSubstr | OLog
+| OVar | OMissing | OMissingSome
+| OIf | OTernary | OOr | OAnd | OMap | OFilter | OReduce | OAll | OSome | ONone.
+
+Definition op_names : list (str * opname) :=
+  (lit "==", OEq) :: (lit "!=", ONe) :: (lit "===", OSeq) :: (lit "!==", OSne) :: (lit "!", ONot)
+  :: (lit "!!", ONotNot) :: (lit "<", OLt) :: (lit "<=", OLe) :: (lit ">", OGt) :: (lit ">=", OGe)
+  :: (lit "+", OAdd) :: (lit "-", OSub) :: (lit "*", OMul) :: (lit "/", ODiv) :: (lit "%", OMod)
+  :: (lit "max", OMax) :: (lit "min", OMin) :: (lit "merge", OMerge) :: (lit "in", OIn)
+  :: (lit "cat", OCat) :: (lit "substr", OSubstr) :: (lit "log", OLog) :: (lit "var", OVar)
+  :: (lit "missing", OMissing) :: (lit "missing_some", OMissingSome) :: (lit "if", OIf)
+  :: (lit "?:", OTernary) :: (lit "or", OOr) :: (lit "and", OAnd) :: (lit "map", OMap)
+  :: (lit "filter", OFilter) :: (lit "reduce", OReduce) :: (lit "all", OAll) :: (lit "some", OSome)
+  :: (lit "none", ONone) :: nil.
